@@ -246,3 +246,80 @@ def history_requests(prep, name, chunks):
         reqs.append({"op": "call", "name": name, "call": {"k": "receive", "chunk": bytes(ch).hex()}})
     reqs.append({"op": "sess_del", "name": name})
     return reqs
+
+
+# ------------------------------------------------------------------ sends whose PACKING fails (implementation only)
+
+UNENCODABLE = ["1.2.\ud800", "\udfff", "cn=\udc80x", "a\udcffb"]
+
+
+def failed_pack_histories(rng, count, hist):
+    """Two sessions make successful sends interleaved with sends whose packing must fail (a str argument that UTF-8 cannot encode) and drains
+    of arbitrary amounts.  Expected: a failed call queues nothing, on its own session or any other — the drained stream of each session is the
+    concatenation of the encodings (built by the harness's own BER encoder, not by the library) of exactly its successful sends."""
+    import p_c04
+
+    out = []
+    fr = p_c04.Freedom(rng, on=False)
+
+    def enc(m):
+        node, _ = p_c04.msg_tree(m, fr)
+        return ber.encode(node)
+
+    t = C.tx
+    for n in range(count):
+        role = rng.choice(["client", "client", "server"])
+        sess, expected, drained, log = {}, {}, {}, []
+        for who in "AB":
+            s = sansldap.LDAPClient() if role == "client" else sansldap.LDAPServer()
+            if role == "server":
+                for i in (1, 2, 3):
+                    s.receive(enc({"id": i, "op": {"k": "extReq", "name": t("1.2"), "value": None}, "controls": []}))
+            sess[who], expected[who], drained[who] = s, b"", b""
+        for _ in range(rng.choice([3, 4, 6, 8])):
+            who = rng.choice("AB")
+            s = sess[who]
+            r = rng.random()
+            try:
+                if r < 0.35:
+                    bad = rng.choice(UNENCODABLE)
+                    log.append((who, "failing-send", bad.encode("utf-8", "surrogatepass").hex()))
+                    if role == "client":
+                        k = rng.choice([0, 1, 2])
+                        (s.extended_request(bad) if k == 0 else s.search_request(bad) if k == 1 else s.bind_simple(bad, "pw"))
+                    else:
+                        s.extended_response(rng.choice([1, 2, 3]), diagnostics_message=bad)
+                    hist["failed-pack:accepted"] += 1       # (an implementation may also accept it; then nothing is expected of this step)
+                    expected[who] = None
+                elif r < 0.8:
+                    v = rng.choice([None, b"", b"\x00\xff"])
+                    if role == "client":
+                        i = s.extended_request("1.2.3", v)
+                        m = {"id": i, "op": {"k": "extReq", "name": t("1.2.3"), "value": None if v is None else v.hex()}, "controls": []}
+                    else:
+                        i = rng.choice([1, 2, 3])
+                        s.extended_response(i, value=v)
+                        m = {"id": i, "op": {"k": "extResp", "res": {"code": 0, "mdn": t(""), "diag": t(""), "refs": []}, "name": None,
+                                             "value": None if v is None else v.hex()}, "controls": []}
+                    log.append((who, "send", m["id"]))
+                    if expected[who] is not None:
+                        expected[who] += enc(m)
+                else:
+                    amount = rng.choice([None, 0, 1, 5, 10 ** 6])
+                    drained[who] += s.data_to_send(amount)
+                    log.append((who, "drain", amount))
+            except sansldap.LDAPError:
+                log.append((who, "refused", None))
+            except Exception as e:  # noqa: BLE001
+                log.append((who, "raised", type(e).__name__))
+                hist["failed-pack:" + type(e).__name__] += 1
+        for who in "AB":
+            drained[who] += sess[who].data_to_send()
+            hist["failed-pack:sessions"] += 1
+            if expected[who] is not None and drained[who] != expected[who]:
+                out.append({"key": None, "what": "the drained stream is not the concatenation of the encodings of the successful sends after a send whose "
+                            "packing failed (bytes of a failed send reached the wire, possibly of another session)", "role": role, "session": who,
+                            "steps": log, "drained": drained[who].hex(), "expected": expected[who].hex()})
+        if len(out) >= 5:
+            break
+    return out
